@@ -1,6 +1,8 @@
 package main
 
 import (
+	"regexp"
+	"strings"
 	"golang.org/x/tools/go/ssa"
 )
 
@@ -12,6 +14,8 @@ const (
 	reMetaBatch    = `NewWriteBatchAt\([^,]*,\d+\)`
 	reVersionBatch = `NewWriteBatchAt\([^,]*,[^)]*versionToTs`
 )
+
+var reMetaKeyed = regexp.MustCompile(`global:storage/mkvs/db/badger\.(rootUpdatedNodesKeyFmt|rootsMetadataKeyFmt|metadataKeyFmt)`)
 
 func union(name string, evs ...Ev) Ev {
 	out := Ev{Name: name}
@@ -134,6 +138,45 @@ func rulesC07(c *Ctx) {
 				c.Check(hit == nil, rule, fname(fn)+":cleanMultipartLocked(true)✓≺return-ok", c.P.InstrPos(clean.Ins[0]),
 					"every success return of New passes cleanMultipartLocked(true)✓", "New can return a database without having cleaned multipart restore leftovers")
 			}
+		}
+	}
+
+	// badger: records stored at the metadata timestamp that a redo of the operation reads
+	// (updated-nodes index, roots metadata, database metadata) are modified only through the
+	// metadata transaction, i.e. atomically with the metadata commit — never through a
+	// separately flushed write batch.
+	for _, n := range []string{"(*badgerNodeDB).Finalize", "(*badgerNodeDB).Prune", "(*badgerBatch).Commit"} {
+		fn := c.P.Fn("storage/mkvs/db/badger." + n)
+		if fn == nil {
+			continue
+		}
+		fns := append([]*ssa.Function{fn}, anonFuncs(fn)...)
+		nops := 0
+		okAll := true
+		for _, f := range fns {
+			for _, call := range callsIn(f) {
+				cn := calleeName(call)
+				if !strings.HasPrefix(cn, bWB+".") {
+					continue
+				}
+				m := cn[len(bWB)+1:]
+				if m != "Set" && m != "Delete" && m != "DeleteAt" && m != "SetEntryAt" && m != "SetEntry" {
+					continue
+				}
+				nops++
+				args := allArgs(call)
+				if len(args) < 2 {
+					continue
+				}
+				ks := vstr(args[1]) + " " + strings.Join(rootStrs(args[1]), " ")
+				if reMetaKeyed.MatchString(ks) {
+					okAll = false
+					c.Fail(rule, fname(fn)+":meta-keyed-record-via-batch", c.P.InstrPos(call), "a metadata-timestamp record ("+reMetaKeyed.FindString(ks)+") is modified through a separately flushed write batch instead of the metadata transaction: a crash between the batch flush and the metadata commit leaves the operation neither done nor repeatable")
+				}
+			}
+		}
+		if okAll {
+			c.OK(rule, fname(fn)+":meta-keyed-record-via-batch", c.P.Pos(fn.Pos()), "none of the "+itoa(nops)+" write-batch operations touches updated-nodes index / roots metadata / db metadata keys")
 		}
 	}
 
